@@ -677,7 +677,7 @@ func (in *Interp) nilBit(v Val) Bit {
 	case NilV:
 		return U.B1
 	case *Ptr:
-		if p.Obj.Kind == "lazy" || p.Obj.Kind == "param" {
+		if (p.Obj.Kind == "lazy" || p.Obj.Kind == "param") && !p.Obj.NonNil {
 			if p.Path == "" && p.Dyn == nil {
 				return U.srcBit(U.source("nil", "nil("+p.Obj.Name+")", 1), 0)
 			}
